@@ -25,7 +25,7 @@ pub fn run(scn: &Value) -> Value {
     let statuses = util::block_on(async move {
         let l = tokio::net::TcpListener::bind("127.0.0.1:0").await.unwrap();
         let addr = l.local_addr().unwrap();
-        let (c, sv) = tokio::join!(tokio::net::TcpStream::connect(addr), l.accept());
+        let (c, sv) = tokio::join!(crate::util::connect_loopback(addr), l.accept());
         let (mut c, (sv, peer)) = (c.unwrap(), sv.unwrap());
         c.set_nodelay(true).ok();
         let server = tokio::spawn(async move { v::session(&router, sv, peer.ip()).await });
